@@ -28,43 +28,43 @@ QUEUE_ATOMICS = {'_queue.writeIndex': 'writeIndex', '_queue.readIndex': 'readInd
 QUEUE_CALLS = {'buffer': ('const', 'ptr', '0'), 'BINLOG_VERIF_POINT': ('ignore',)}
 
 SPECS = [
-    dict(lean_name='writeCapacity', file=QW, function='writeCapacity', ret='u64',
+    dict(area='Queue', lean_name='writeCapacity', file=QW, function='writeCapacity', ret='u64',
          inputs={'_writePos': 'ptr', '_writeEnd': 'ptr'}, vars=QUEUE_VARS, calls=QUEUE_CALLS),
-    dict(lean_name='unreadWriteSize', file=QW, function='unreadWriteSize', ret='u64',
+    dict(area='Queue', lean_name='unreadWriteSize', file=QW, function='unreadWriteSize', ret='u64',
          inputs={'writeIndex': 'u64', 'readIndex': 'u64', 'dataEnd': 'u64'}, vars=QUEUE_VARS, atomics=QUEUE_ATOMICS,
          calls=QUEUE_CALLS),
-    dict(lean_name='beginWrite', file=QW, function='beginWrite', ret='bool',
+    dict(area='Queue', lean_name='beginWrite', file=QW, function='beginWrite', ret='bool',
          inputs={'size': 'u64', '_writePos': 'ptr', '_writeEnd': 'ptr', 'maximizeWriteCapacity_ret': 'u64'},
          params={'size': ('size', 'u64')}, vars=QUEUE_VARS,
          calls=dict(QUEUE_CALLS, maximizeWriteCapacity=('opaque', 'u64', 'maximizeWriteCapacity_ret', [])),
          inline_pure={'writeCapacity': (QW, 'writeCapacity')}),
-    dict(lean_name='writeBuffer', file=QW, function='writeBuffer', ret='ptr',
+    dict(area='Queue', lean_name='writeBuffer', file=QW, function='writeBuffer', ret='ptr',
          inputs={'size': 'u64', '_writePos': 'ptr', '_writeEnd': 'ptr'}, params={'size': ('size', 'u64')},
          vars=QUEUE_VARS, outputs=['_writePos'],
          calls=dict(QUEUE_CALLS, memcpy=('opaque', 'ptr', '$arg0', ['ptr', 'skip', 'u64']))),
-    dict(lean_name='endWrite', file=QW, function='endWrite', ret=None,
+    dict(area='Queue', lean_name='endWrite', file=QW, function='endWrite', ret=None,
          inputs={'_writePos': 'ptr'}, vars=QUEUE_VARS, atomics=QUEUE_ATOMICS, store_outputs=['writeIndex_store'],
          calls=QUEUE_CALLS),
-    dict(lean_name='maximizeWriteCapacity', file=QW, function='maximizeWriteCapacity', ret='u64',
+    dict(area='Queue', lean_name='maximizeWriteCapacity', file=QW, function='maximizeWriteCapacity', ret='u64',
          inputs={'writeIndex': 'u64', 'readIndex': 'u64', 'capacity': 'u64', 'dataEnd': 'u64', '_writePos': 'ptr', '_writeEnd': 'ptr'},
          vars=QUEUE_VARS, atomics=QUEUE_ATOMICS, outputs=['_writePos', '_writeEnd', 'dataEnd'], calls=QUEUE_CALLS,
          inline_pure={'writeCapacity': (QW, 'writeCapacity')}),
     # QueueReader::beginRead returns ReadResult{buffer1, size1, buffer2, size2}; the aggregate is rewritten to four assignments
-    dict(lean_name='beginRead', file=QR, function='beginRead', ret=None,
+    dict(area='Queue', lean_name='beginRead', file=QR, function='beginRead', ret=None,
          inputs={'writeIndex': 'u64', 'readIndex': 'u64', 'dataEnd': 'u64', '_readEnd': 'u64',
                  'buffer1': 'ptr', 'size1': 'u64', 'buffer2': 'ptr', 'size2': 'u64'},
          vars=dict(QUEUE_VARS, buffer1=('buffer1', 'ptr'), size1=('size1', 'u64'), buffer2=('buffer2', 'ptr'), size2=('size2', 'u64')),
          atomics=QUEUE_ATOMICS, outputs=['_readEnd', 'buffer1', 'size1', 'buffer2', 'size2'], calls=QUEUE_CALLS,
          rewrites=[(r'return\s+ReadResult\s*\{([^,{}]*),([^,{}]*),([^,{}]*),([^,{}]*)\}\s*;',
                     r'{ buffer1 = \1; size1 = \2; buffer2 = \3; size2 = \4; return; }')]),
-    dict(lean_name='endRead', file=QR, function='endRead', ret=None,
+    dict(area='Queue', lean_name='endRead', file=QR, function='endRead', ret=None,
          inputs={'_readEnd': 'u64'}, vars=QUEUE_VARS, atomics=QUEUE_ATOMICS, store_outputs=['readIndex_store'], calls=QUEUE_CALLS),
     # ---- Time.cpp -----------------------------------------------------------------------------
-    dict(lean_name='ticksToNanoseconds', file=TIME, function='ticksToNanoseconds', ret='i64',
+    dict(area='Time', lean_name='ticksToNanoseconds', file=TIME, function='ticksToNanoseconds', ret='i64',
          inputs={'frequency': 'u64', 'ticks': 'i64'}, params={'frequency': ('frequency', 'u64'), 'ticks': ('ticks', 'i64')},
          consts={'std::nano::den': (1000000000, 'i64')},
          rewrites=[(r'std::chrono::nanoseconds\s*\{', 'std::int64_t{')]),
-    dict(lean_name='clockToNsSinceEpoch', file=TIME, function='clockToNsSinceEpoch', ret='i64',
+    dict(area='Time', lean_name='clockToNsSinceEpoch', file=TIME, function='clockToNsSinceEpoch', ret='i64',
          inputs={'clockSync_clockValue': 'u64', 'clockSync_clockFrequency': 'u64', 'clockSync_nsSinceEpoch': 'u64', 'clockValue': 'u64'},
          params={'clockValue': ('clockValue', 'u64')},
          vars={'clockSync.clockValue': ('clockSync_clockValue', 'u64'), 'clockSync.clockFrequency': ('clockSync_clockFrequency', 'u64'),
@@ -72,7 +72,7 @@ SPECS = [
          consts={'std::nano::den': (1000000000, 'i64')},
          rewrites=[(r'using nanos = std::chrono::nanoseconds;', ''), (r'nanos\s*\{', 'std::int64_t{')]),
     # the chrono part of nsSinceEpochToBrokenDownTimeUTC up to the call of gmtime_r: seconds (floor) and the sub-second remainder
-    dict(lean_name='nsSinceEpochToSeconds', file=TIME, function='nsSinceEpochToBrokenDownTimeUTC', ret=None,
+    dict(area='Time', lean_name='nsSinceEpochToSeconds', file=TIME, function='nsSinceEpochToBrokenDownTimeUTC', ret=None,
          inputs={'sinceEpoch': 'i64', 'tm_nsec': 'i32'}, params={'sinceEpoch': ('sinceEpoch', 'i64')},
          vars={'dst.tm_nsec': ('tm_nsec', 'i32')}, outputs=['tm_nsec'],
          calls={'gmtime_r': ('opaque', 'i32', None, ['i64', 'skip'])},
@@ -81,45 +81,46 @@ SPECS = [
                     'std::int64_t seconds = sinceEpoch / 1000000000L;'),
                    (r'std::chrono::nanoseconds\{seconds\}', '(seconds * 1000000000L)'),
                    (r'seconds -= std::chrono::seconds\{1\};', 'seconds -= 1;'),
-                   (r'const clock::time_point tp\{std::chrono::duration_cast<clock::duration>\(seconds\)\};', ''),
-                   (r'const std::time_t tt = clock::to_time_t\(tp\);', 'const std::time_t tt = seconds;'),
+                   (r'const clock::time_point tp\{std::chrono::duration_cast<clock::duration>\(seconds\)\};',
+                    'const std::int64_t tp = seconds * 1000000000L;'),          # clock::duration = nanoseconds (libstdc++)
+                   (r'const std::time_t tt = clock::to_time_t\(tp\);', 'const std::time_t tt = tp / 1000000000L;'),
                    (r'gmtime_r\(&tt, &dst\);', 'gmtime_r(tt, dst);'),
                    (r'const std::chrono::nanoseconds remainder\{sinceEpoch - seconds\};',
                     'const std::int64_t remainder = sinceEpoch - seconds * 1000000000L;'),
                    (r'remainder\.count\(\)', 'remainder')]),
     # ---- PrettyPrinter.cpp helpers --------------------------------------------------------------
-    dict(lean_name='printTwoDigits', file=PP, function='printTwoDigits', ret=None,
+    dict(area='Time', lean_name='printTwoDigits', file=PP, function='printTwoDigits', ret=None,
          inputs={'i': 'i32'}, params={'i': ('i', 'i32')},
          calls={'out.write': ('opaque', 'i32', None, ['skip', 'i32']), 'digit': ('opaque', 'i32', None, ['i32'])},
          rewrites=[(r"const char digits\[2\]\{char\('0' \+ a\), char\('0' \+ b\)\};", 'digit(a); digit(b);')]),
-    dict(lean_name='printTimeZoneOffset', file=PP, function='printTimeZoneOffset', ret=None,
+    dict(area='Time', lean_name='printTimeZoneOffset', file=PP, function='printTimeZoneOffset', ret=None,
          inputs={'seconds': 'i32'}, params={'seconds': ('seconds', 'i32')},
          calls={'out.put': ('opaque', 'i32', None, ['i32']), 'printTwoDigits': ('opaque', 'i32', None, ['skip', 'i32'])},
          rewrites=[(r'const char sign', 'const int sign')]),
     # ---- Range.hpp --------------------------------------------------------------------------------
-    dict(lean_name='rangeThrowIfOverflow', file=RANGE, function='throw_if_overflow', ret=None,
+    dict(area='Reader', lean_name='rangeThrowIfOverflow', file=RANGE, function='throw_if_overflow', ret=None,
          inputs={'s': 'u64', '_begin': 'ptr', '_end': 'ptr'}, params={'s': ('s', 'u64')},
          vars={'_begin': ('_begin', 'ptr'), '_end': ('_end', 'ptr')}),
-    dict(lean_name='rangeView', file=RANGE, function='view', ret='ptr',
+    dict(area='Reader', lean_name='rangeView', file=RANGE, function='view', ret='ptr',
          inputs={'size': 'u64', '_begin': 'ptr', '_end': 'ptr'}, params={'size': ('size', 'u64')},
          vars={'_begin': ('_begin', 'ptr'), '_end': ('_end', 'ptr')}, outputs=['_begin'],
          calls={'throw_if_overflow': ('opaque', 'i32', None, ['u64'])}),
     # ---- brecovery.cpp ------------------------------------------------------------------------------
-    dict(lean_name='checkQueueInvariants', file=BREC, function='checkQueueInvariants', ret='bool',
+    dict(area='Recovery', lean_name='checkQueueInvariants', file=BREC, function='checkQueueInvariants', ret='bool',
          inputs={'writeIndex': 'u64', 'dataEnd': 'u64', 'readIndex': 'u64', 'capacity': 'u64'},
          vars={'queue.writeIndex': ('writeIndex', 'u64'), 'queue.dataEnd': ('dataEnd', 'u64'),
                'queue.readIndex': ('readIndex', 'u64'), 'queue.capacity': ('capacity', 'u64')},
          rewrites=[(r'BINLOG_ERROR\((?:[^()]|\([^()]*\))*\);', '')]),
     # ---- OstreamBuffer.cpp ----------------------------------------------------------------------------
-    dict(lean_name='ostreamBufferReserve', file=OSB, function='reserve', ret=None,
+    dict(area='Reader', lean_name='ostreamBufferReserve', file=OSB, function='reserve', ret=None,
          inputs={'n': 'u64', '_p': 'ptr'}, params={'n': ('n', 'u64')},
          vars={'_p': ('_p', 'ptr')}, outputs=['_p'],
          calls={'_buf.size': ('const', 'u64', '1024'), '_buf.data': ('const', 'ptr', '0'), 'flush': ('opaque', 'i32', None, [], {'_p': ('0', 'ptr')})}),
     # flush(): writes [_buf.data(), _p) to the stream and resets _p (this is what the `flush` effect of reserve stands for)
-    dict(lean_name='ostreamBufferFlush', file=OSB, function='flush', ret=None,
+    dict(area='Reader', lean_name='ostreamBufferFlush', file=OSB, function='flush', ret=None,
          inputs={'_p': 'ptr'}, vars={'_p': ('_p', 'ptr')}, outputs=['_p'],
          calls={'_buf.data': ('const', 'ptr', '0'), '_out.write': ('opaque', 'i32', None, ['ptr', 'i64'])}),
-    dict(lean_name='ostreamBufferPut', file=OSB, function='put', ret=None,
+    dict(area='Reader', lean_name='ostreamBufferPut', file=OSB, function='put', ret=None,
          inputs={'c': 'i8', '_p': 'ptr'}, params={'c': ('c', 'i8')},
          vars={'_p': ('_p', 'ptr')}, outputs=['_p'],
          calls={'reserve': ('opaque', 'i32', None, ['u64']), 'store': ('opaque', 'i32', None, ['ptr', 'i8'])},
@@ -141,27 +142,47 @@ set_option linter.unusedVariables false
 '''
 
 
+AREAS = ['Queue', 'Time', 'Reader', 'Recovery']
+
+
 def generate():
-    """returns (lean text, info dict); raises c2lean.TranslateError"""
-    parts = [HEADER]
-    info = {}
-    for spec in SPECS:
-        text, body = c2lean.translate_function(spec)
-        parts.append(text)
-        info[spec['lean_name']] = {'file': spec['file'], 'function': spec['function'],
-                                   'source_sha': hashlib.sha256(body.encode()).hexdigest()[:12]}
-    parts.append('end BinlogVerif.Generated.Src\n')
-    return '\n'.join(parts), info
+    """returns ({area: lean text}, info dict).  A function that cannot be translated any more does not stop the others:
+    its area's file then consists of an error command carrying the translator's message, so that exactly the bridge lemmas
+    of that area (and the checks that list them) stop building."""
+    texts, info = {}, {}
+    for area in AREAS:
+        parts = [HEADER.replace('namespace BinlogVerif.Generated.Src', 'namespace BinlogVerif.Generated.Src')]
+        failed = None
+        for spec in SPECS:
+            if spec['area'] != area:
+                continue
+            try:
+                text, body = c2lean.translate_function(spec)
+            except (c2lean.TranslateError, KeyError, IndexError, ValueError) as e:
+                failed = '%s (%s): %s' % (spec['function'], spec['file'], e)
+                info[spec['lean_name']] = {'file': spec['file'], 'function': spec['function'], 'error': str(e)}
+                continue
+            parts.append(text)
+            info[spec['lean_name']] = {'file': spec['file'], 'function': spec['function'],
+                                       'source_sha': hashlib.sha256(body.encode()).hexdigest()[:12]}
+        parts.append('end BinlogVerif.Generated.Src\n')
+        if failed:
+            msg = failed.replace('"', "'").replace('\\', '/')
+            texts[area] = ('/- GENERATED by tools/c2lean.py — the translation FAILED; this file deliberately does not compile -/\n'
+                           'import BinlogVerif.Base.CSem\n'
+                           'theorem BinlogVerif.Generated.Src.translation_failed_%s : False := by\n'
+                           '  exact absurd rfl (by decide : ¬ ("%s" = "%s"))\n' % (area, 'tools/c2lean.py cannot translate ' + msg[:400], ''))
+        else:
+            texts[area] = '\n'.join(parts)
+    return texts, info
 
 
 if __name__ == '__main__':
-    try:
-        text, info = generate()
-    except c2lean.TranslateError as e:
-        print('TRANSLATE-ERROR', e)
-        sys.exit(1)
+    texts, info = generate()
     if len(sys.argv) > 1:
-        open(sys.argv[1], 'w').write(text)
+        for area, text in texts.items():
+            open(os.path.join(sys.argv[1], 'Src%s.lean' % area), 'w').write(text)
         print(json.dumps(info))
     else:
-        print(text)
+        for area, text in texts.items():
+            print(text)
